@@ -56,6 +56,12 @@ class HomogeneousPoissonEncoder(GeneratorMixin, RefractoryStepMixin, Module):
         )
         GeneratorMixin.__init__(self, generator=generator)
 
+        # refrac-frequency compatibility test
+        if self.__compensate_freq:
+            _ = argtest.lt(
+                "frequency * refrac", self.__frequency_scale * self.refrac, 1000, float
+            )
+
     @property
     def compensated(self) -> bool:
         r"""If the spike frequency compensates for the refractory period.
